@@ -363,6 +363,25 @@ Proof.
 Qed.
 Print Assumptions C07gen_get_instruction_complete.
 
+(* own pattern: an instruction whose operand kinds an entry of the documented vocabulary admits is never reported as
+   unknown by the translated get_instruction (that entry or an earlier one of the name is returned) *)
+Theorem C07gen_own_pattern_matches : forall a s d more rest ep eo tbl n ops e,
+  isa_text_ok a s -> wf_env eo -> represents ep d tbl ->
+  In e tbl -> e_name e = py_upper n ->
+  Forall (fun p => wf_pattern a p = true) (e_pats e) -> Forall (fun o => wf_operand a o = true) ops ->
+  Forall2 (fun p o => admits a p (kind a o) = true) (e_pats e) ops ->
+  exists j e', nth_error tbl j = Some e'
+    /\ g_get_instruction (mk_self s (PDict d) more rest) (PStr n) (embed_ops eo ops) = Ok (embed_form ep e').
+Proof.
+  intros a s d more rest ep eo tbl n ops e Hs Hwf Hrep Hin Hname Hwp Hwo Had.
+  apply (C07gen_get_instruction_complete a s d more rest ep eo tbl n ops Hs Hwf Hrep Hwo).
+  exists e. split; [assumption|]. split; [assumption|].
+  apply match_operands_true_iff. split.
+  - symmetry. eapply Forall2_length'. exact Had.
+  - apply forall2_admits_check; assumption.
+Qed.
+Print Assumptions C07gen_own_pattern_matches.
+
 (* ---- non-vacuity: the hypotheses are satisfiable and the translated code really evaluates *)
 Definition env0 : env := Env 7 (fun _ => [("source", PBool false); ("destination", PBool false)]) [("value", PInt 8)] (PStr "x") "FlagOperand".
 Definition env1 : env := Env 9 (fun _ => []) [] (PDict []) "LabelOperand".
